@@ -253,11 +253,11 @@ impl Memfs {
             return Err(PathError::Empty.into());
         }
 
-        // Expand home directory
-        let mut path_buf = path.expand()?;
+        // Trim protocol prefix if needed, before expansion rebuilds the path and collapses its `//`
+        let mut path_buf = path.trim_protocol();
 
-        // Trim protocol prefix if needed
-        path_buf = path_buf.trim_protocol();
+        // Expand home directory
+        path_buf = path_buf.expand()?;
 
         // Clean the resulting path
         path_buf = path_buf.clean();
